@@ -543,7 +543,8 @@ class DictNode(MappingNode, MultiSetNode[KeyValuePairNode]):
         )
 
     def edits(self, node: TreeNode) -> Edit:
-        if isinstance(node, MultiSetNode):
+        if isinstance(node, MappingNode):
+            # (not any MultiSetNode: the members of a plain set are not key/value pairs)
             return super().edits(node)
         else:
             return Replace(self, node)
